@@ -6,6 +6,22 @@ from .frontend import children, strip, strip_parens
 from .expr import int_value, access_path, var_init, canon
 
 
+_CTYPE_BITS = {'_ISupper': 256, '_ISlower': 512, '_ISalpha': 1024, '_ISdigit': 2048, '_ISxdigit': 4096, '_ISspace': 8192,
+               '_ISprint': 16384, '_ISgraph': 32768, '_ISblank': 1, '_IScntrl': 2, '_ISpunct': 4, '_ISalnum': 8}
+
+
+def _narrow_to(val, t):
+    """value after conversion to the (char-sized) integer type t; wider types are left alone"""
+    if val is None or not isinstance(val, int):
+        return val
+    t = (t or '').replace('const ', '').strip()
+    if t in ('char', 'signed char', 'int8_t'):
+        return ((val + 128) % 256) - 128
+    if t in ('unsigned char', 'uint8_t', '_Bool', 'bool'):
+        return val % 256 if t not in ('_Bool', 'bool') else int(bool(val))
+    return val
+
+
 def run_function(prog, f, args, stubs, max_steps=400, extra_env=None):
     env = dict(extra_env or {})
     for p, a in zip(f.params, args):
@@ -24,6 +40,8 @@ def run_function(prog, f, args, stubs, max_steps=400, extra_env=None):
         if k == 'DeclRefExpr':
             r = s.get('_ref') or ('',)
             if r[0] == 'enum':
+                if r[1] in _CTYPE_BITS:
+                    return _CTYPE_BITS[r[1]]
                 c = f.unit.enums.get(r[1])
                 if c is not None:
                     from .frontend import walk as _walk
@@ -39,6 +57,39 @@ def run_function(prog, f, args, stubs, max_steps=400, extra_env=None):
                 return None
             p = access_path(s)
             return env.get(p)
+        if k == 'ArraySubscriptExpr' and '__ctype_b_loc' in canon(children(s)[0]):
+            # glibc's <ctype.h> macros: (*__ctype_b_loc())[c] & _ISxxx  -  the classification bits of the C locale
+            c_ = ev(children(s)[1])
+            if c_ is None or not (-128 <= c_ <= 255):
+                return None
+            ch = chr(c_ & 0xff) if c_ >= 0 else chr(c_ + 256)
+            o = ord(ch)
+            bits = 0
+            if 'A' <= ch <= 'Z':
+                bits |= 256
+            if 'a' <= ch <= 'z':
+                bits |= 512
+            if ch.isalpha() and o < 128:
+                bits |= 1024
+            if '0' <= ch <= '9':
+                bits |= 2048
+            if ch in '0123456789abcdefABCDEF':
+                bits |= 4096
+            if ch in ' \t\n\v\f\r':
+                bits |= 8192
+            if 32 <= o < 127:
+                bits |= 16384
+            if 33 <= o < 127:
+                bits |= 32768
+            if ch in ' \t':
+                bits |= 1
+            if o < 32 or o == 127:
+                bits |= 2
+            if 33 <= o < 127 and not ch.isalnum():
+                bits |= 4
+            if ch.isalnum() and o < 128:
+                bits |= 8
+            return bits
         if k == 'MemberExpr':
             return env.get(access_path(s))      # field reads are looked up by their path (given by the caller), else unknown
         if k == 'CallExpr':
@@ -64,6 +115,8 @@ def run_function(prog, f, args, stubs, max_steps=400, extra_env=None):
                 val = ev(children(s)[1])
                 if p is None or val is None:
                     return None
+                from .frontend import qtype as _qt
+                val = _narrow_to(val, _qt(strip(children(s)[0])))
                 env[p] = val
                 return val
             a = ev(children(s)[0])
@@ -109,6 +162,8 @@ def run_function(prog, f, args, stubs, max_steps=400, extra_env=None):
                 return None
             if val is None:
                 return None
+            from .frontend import qtype as _qt
+            val = _narrow_to(val, _qt(strip(children(s)[0])))
             env[p] = val
             return val
         return None
@@ -124,14 +179,15 @@ def run_function(prog, f, args, stubs, max_steps=400, extra_env=None):
         if node.kind == 'act' and isinstance(a, dict):
             k = a.get('kind')
             if k == 'ReturnStmt':
-                return ev(children(a)[0]) if children(a) else None
+                return _narrow_to(ev(children(a)[0]), (f.rettype or '')) if children(a) else None
             if k == 'VarDecl':
                 init = var_init(a)
                 if init is not None:
                     v = ev(init)
                     if v is None:
                         return None
-                    env[a.get('name')] = v
+                    from .frontend import qtype as _qt
+                    env[a.get('name')] = _narrow_to(v, _qt(a))
             elif k in ('BinaryOperator', 'CompoundAssignOperator', 'UnaryOperator', 'CallExpr'):
                 if ev(a) is None and k in ('BinaryOperator', 'CompoundAssignOperator'):
                     return None
